@@ -304,3 +304,243 @@ Section Table.
     destruct (pt_loop_inv _ _ _ _ _ I1 I2 H) as [_ B]. eapply closed_bounds_walks; eassumption.
   Qed.
 End Table.
+
+(* ------------------------------------------------------------------ *)
+(* termination                                                         *)
+(* ------------------------------------------------------------------ *)
+
+(* lexicographic product of well-founded orders, by hand (the stdlib's goes through Eqdep) *)
+Lemma lex_pair_wf : forall {A B} (RA : A -> A -> Prop) (RB : B -> B -> Prop),
+  well_founded RA -> well_founded RB ->
+  well_founded (fun p q : A * B => RA (fst p) (fst q) \/ (fst p = fst q /\ RB (snd p) (snd q))).
+Proof.
+  intros A B RA RB wa wb [a b]. revert b. induction (wa a) as [a _ IHa]. intros b.
+  induction (wb b) as [b _ IHb]. constructor. intros [a' b'] [H|[E H]]; cbn [fst snd] in *.
+  - apply IHa. assumption.
+  - subst a'. apply IHb. assumption.
+Qed.
+
+(* strictly smaller distance with a non-negative staleness: well-founded *)
+Definition dlt (x y : dist) : Prop := ltP x y /\ (0 <= d_stale x)%Z.
+
+Lemma dlt_wf : well_founded dlt.
+Proof.
+  set (f := fun d : dist => (d_ledger d, (d_all d, d_stale d))).
+  set (R3 := fun p q : nat * (nat * Z) =>
+               (fst p < fst q)%nat \/
+               (fst p = fst q /\ ((fst (snd p) < fst (snd q))%nat \/
+                                  (fst (snd p) = fst (snd q) /\ (0 <= snd (snd p) < snd (snd q))%Z)))).
+  assert (W : well_founded R3).
+  { apply (lex_pair_wf lt (fun p q : nat * Z => (fst p < fst q)%nat \/ (fst p = fst q /\ (0 <= snd p < snd q)%Z))).
+    - apply lt_wf.
+    - apply (lex_pair_wf lt (fun x y : Z => (0 <= x < y)%Z)); [apply lt_wf|apply (Z.lt_wf 0)]. }
+  apply (wf_incl _ _ (fun x y => R3 (f x) (f y))).
+  - intros x y [H Hs]. unfold R3, f, ltP in *. cbn [fst snd]. lia.
+  - apply (wf_inverse_image _ _ R3 f W).
+Qed.
+
+(* labels: None (no label yet) is above every label *)
+Definition olt (a b : option dist) : Prop :=
+  match a, b with
+  | Some x, Some y => dlt x y
+  | Some x, None => (0 <= d_stale x)%Z
+  | None, _ => False
+  end.
+Definition ole (a b : option dist) : Prop := a = b \/ olt a b.
+
+Lemma olt_wf : well_founded olt.
+Proof.
+  assert (S : forall x, Acc olt (Some x)).
+  { intros x. induction (dlt_wf x) as [x _ IH]. constructor. intros [y|] H; [|destruct H].
+    apply IH. exact H. }
+  intros [x|]; [apply S|]. constructor. intros [y|] H; [apply S|destruct H].
+Qed.
+Lemma olt_irrefl : forall a, ~ olt a a.
+Proof. intros [x|] H; [destruct H as [H _]; exact (ltP_irrefl _ H)|exact H]. Qed.
+Lemma olt_trans : forall a b c, olt a b -> olt b c -> olt a c.
+Proof.
+  intros [x|] [y|] [z|]; cbn; try tauto.
+  - intros [H1 S1] [H2 S2]. split; [eapply ltP_trans; eassumption|assumption].
+  - intros [H1 S1] _. assumption.
+Qed.
+Lemma ole_trans : forall a b c, ole a b -> ole b c -> ole a c.
+Proof.
+  intros a b c [->|H1] [->|H2]; [left; reflexivity|right; assumption|right; assumption|].
+  right. eapply olt_trans; eassumption.
+Qed.
+Lemma ole_olt_trans : forall a b c, ole a b -> olt b c -> olt a c.
+Proof. intros a b c [->|H1] H2; [assumption|eapply olt_trans; eassumption]. Qed.
+Lemma olt_ole_trans : forall a b c, olt a b -> ole b c -> olt a c.
+Proof. intros a b c H1 [<-|H2]; [assumption|eapply olt_trans; eassumption]. Qed.
+
+(* lists of labels of equal length, lexicographically *)
+Fixpoint lexlt (l1 l2 : list (option dist)) : Prop :=
+  match l1, l2 with
+  | x :: a, y :: b => olt x y \/ (x = y /\ lexlt a b)
+  | _, _ => False
+  end.
+Definition Rlex (l1 l2 : list (option dist)) : Prop := length l1 = length l2 /\ lexlt l1 l2.
+
+Lemma Rlex_wf : well_founded Rlex.
+Proof.
+  assert (H : forall n l, length l = n -> Acc Rlex l).
+  { induction n as [|k IHn]; intros l Hl.
+    - destruct l; [|discriminate]. constructor. intros l' [_ X]. destruct l'; destruct X.
+    - destruct l as [|x a]; [discriminate|]. injection Hl as Hl. revert a Hl.
+      induction (olt_wf x) as [x _ IHx]. intros a Hl.
+      induction (IHn a Hl) as [a _ IHa]. constructor. intros l' [Hlen X].
+      destruct l' as [|x' a']; [destruct X|]. cbn in Hlen. injection Hlen as Hlen.
+      destruct X as [X|[-> X]].
+      + apply IHx; [assumption|congruence].
+      + apply IHa; [split; assumption|congruence]. }
+  intros l. apply (H (length l)). reflexivity.
+Qed.
+
+Lemma lexlt_pointwise : forall (U : list cid) (f' f : cid -> option dist),
+  (forall c, In c U -> ole (f' c) (f c)) -> (exists c, In c U /\ olt (f' c) (f c)) ->
+  lexlt (map f' U) (map f U).
+Proof.
+  induction U as [|c0 U' IH]; intros f' f Hle (c & Hin & Hlt); [destruct Hin|].
+  cbn [map lexlt]. destruct (Hle c0 (or_introl eq_refl)) as [E|L]; [|left; assumption].
+  right. split; [assumption|]. apply IH.
+  - intros c' Hc'. apply Hle. right; assumption.
+  - destruct Hin as [<-|Hin]; [rewrite E in Hlt; destruct (olt_irrefl _ Hlt)|].
+    exists c. split; assumption.
+Qed.
+
+Section Termination.
+  Variable recs : records.
+  Variable date : Z.
+  Variable U : list cid.
+  Hypothesis out_closed : forall a e, In e (out_edges recs date a) -> In (e_to e) U.
+
+  Definition lbl (t : table) (c : cid) : option dist := option_map fst (get c t).
+  Definition vec (t : table) : list (option dist) := map (lbl t) U.
+
+  Definition Rstate (s' s : table * queue) : Prop :=
+    Rlex (vec (fst s')) (vec (fst s)) \/
+    (vec (fst s') = vec (fst s) /\ (length (snd s') < length (snd s))%nat).
+
+  Definition Rpair (p q : list (option dist) * nat) : Prop :=
+    Rlex (fst p) (fst q) \/ (fst p = fst q /\ (snd p < snd q)%nat).
+  Definition meas (s : table * queue) : list (option dist) * nat := (vec (fst s), length (snd s)).
+
+  Lemma Rstate_wf : well_founded Rstate.
+  Proof.
+    apply (wf_incl _ _ (fun s' s => Rpair (meas s') (meas s))).
+    - intros s' s H. exact H.
+    - apply (wf_inverse_image _ _ Rpair meas). unfold Rpair.
+      apply (lex_pair_wf Rlex lt Rlex_wf lt_wf).
+  Qed.
+
+  (* queue entries carry a non-negative staleness *)
+  Definition Inv3 (q : queue) : Prop := forall d c r, In (d, (c, r)) q -> (0 <= d_stale d)%Z.
+
+  (* one relaxation: nothing changes, or one label in U is strictly lowered *)
+  Lemma relax1_measure : forall cd prate t q e t1 q1,
+    (0 <= d_stale cd)%Z -> In (e_to e) U -> Inv3 q ->
+    relax1 cd prate (t, q) e = (t1, q1) ->
+    Inv3 q1 /\
+    ((t1 = t /\ q1 = q) \/
+     ((forall c, ole (lbl t1 c) (lbl t c)) /\ exists c, In c U /\ olt (lbl t1 c) (lbl t c))).
+  Proof.
+    intros cd prate t q e t1 q1 Hcd HU I3 H. unfold relax1 in H.
+    set (nd := extend cd (e_src e) (e_stale e)) in *.
+    assert (Hnd : (0 <= d_stale nd)%Z) by (apply extend_stale_nonneg; assumption).
+    assert (Hpush : Inv3 (q ++ [(nd, (e_to e, prate * e_rate e))])).
+    { intros d c r Hin. apply in_app_or in Hin. destruct Hin as [Hin|[E|[]]]; [eapply I3; eassumption|].
+      inversion E; subst. assumption. }
+    assert (Hset : forall old, olt (Some nd) old ->
+                   lbl t (e_to e) = old ->
+                   (forall c, ole (lbl (set (e_to e) (nd, prate * e_rate e) t) c) (lbl t c)) /\
+                   exists c, In c U /\ olt (lbl (set (e_to e) (nd, prate * e_rate e) t) c) (lbl t c)).
+    { intros old Hlt Hold. split.
+      - intros c. unfold lbl. destruct (N.eq_dec (e_to e) c) as [<-|Hne].
+        + rewrite pget_set_same. right. cbn [option_map fst]. unfold lbl in Hold. rewrite Hold. assumption.
+        + rewrite pget_set_other by assumption. left; reflexivity.
+      - exists (e_to e). split; [assumption|]. unfold lbl. rewrite pget_set_same. cbn [option_map fst].
+        unfold lbl in Hold. rewrite Hold. assumption. }
+    destruct (get (e_to e) t) as [[d0 r0]|] eqn:G.
+    - destruct (dist_leb d0 nd) eqn:L; cbn [negb] in H; inversion H; subst t1 q1.
+      + split; [assumption|left; split; reflexivity].
+      + split; [assumption|right]. apply dist_leb_false_iff in L.
+        apply (Hset (Some d0)); [split; assumption|unfold lbl; rewrite G; reflexivity].
+    - cbn in H. inversion H; subst t1 q1. split; [assumption|right].
+      apply (Hset None); [exact Hnd|unfold lbl; rewrite G; reflexivity].
+  Qed.
+
+  Lemma relax_edges_measure : forall cd prate es t q t1 q1,
+    (0 <= d_stale cd)%Z -> (forall e, In e es -> In (e_to e) U) -> Inv3 q ->
+    relax_edges cd prate es (t, q) = (t1, q1) ->
+    Inv3 q1 /\
+    ((t1 = t /\ q1 = q) \/
+     ((forall c, ole (lbl t1 c) (lbl t c)) /\ exists c, In c U /\ olt (lbl t1 c) (lbl t c))).
+  Proof.
+    intros cd prate es. induction es as [|e r IH]; intros t q t1 q1 Hcd HU I3 H;
+      unfold relax_edges in H; cbn [fold_left] in H.
+    - inversion H; subst. split; [assumption|left; split; reflexivity].
+    - destruct (relax1 cd prate (t, q) e) as [t0 q0] eqn:E1.
+      destruct (relax1_measure _ _ _ _ _ _ _ Hcd (HU e (or_introl eq_refl)) I3 E1) as (I3' & C1).
+      destruct (IH t0 q0 t1 q1 Hcd (fun e' He' => HU e' (or_intror He')) I3' H) as (I3'' & C2).
+      split; [assumption|].
+      destruct C1 as [[-> ->]|[A1 (c1 & U1 & L1)]]; [exact C2|].
+      destruct C2 as [[-> ->]|[A2 (c2 & U2 & L2)]].
+      + right. split; [assumption|exists c1; split; assumption].
+      + right. split.
+        * intros c. eapply ole_trans; [apply A2|apply A1].
+        * exists c1. split; [assumption|]. eapply ole_olt_trans; [apply A2|exact L1].
+  Qed.
+
+  Lemma pt_loop_terminates : forall choose s,
+    Inv3 (snd s) -> exists fuel t', pt_loop fuel choose recs date (fst s) (snd s) = PTDone t'.
+  Proof.
+    intros choose s. induction (Rstate_wf s) as [[t q] _ IH]. cbn [fst snd] in *. intros I3.
+    destruct (take_at (choose q) q) as [[[cd [prev prate]] q']|] eqn:T.
+    2:{ exists O, t. cbn. rewrite T. reflexivity. }
+    pose proof (take_at_in _ _ _ _ T) as Hq. pose proof (take_at_length _ _ _ _ T) as Hlen.
+    assert (I3' : Inv3 q').
+    { intros d c r Hin. apply (I3 d c r). apply Hq. right; assumption. }
+    assert (Hcd : (0 <= d_stale cd)%Z).
+    { apply (I3 cd prev prate). apply Hq. left; reflexivity. }
+    assert (Hsame : exists fuel t', pt_loop fuel choose recs date t q' = PTDone t').
+    { apply (IH (t, q')); [|exact I3']. right. cbn [fst snd]. split; [reflexivity|lia]. }
+    destruct (match get prev t with Some (pd, _) => dist_ltb pd cd | None => false end) eqn:Sk.
+    - destruct Hsame as (f & t' & Hf). exists (S f), t'. cbn [pt_loop]. rewrite T, Sk. exact Hf.
+    - destruct (get prev recs) as [inn|] eqn:R.
+      + destruct (relax date cd prate inn (t, q')) as [t1 q1] eqn:E.
+        pose proof E as E'. rewrite relax_as_edges in E'.
+        assert (HU : forall e, In e (omap (edge_of date) inn) -> In (e_to e) U).
+        { intros e He. apply (out_closed prev). unfold out_edges. rewrite R. assumption. }
+        destruct (relax_edges_measure _ _ _ _ _ _ _ Hcd HU I3' E') as (I3'' & C).
+        assert (Hnext : exists fuel t', pt_loop fuel choose recs date t1 q1 = PTDone t').
+        { destruct C as [[-> ->]|[A (c & Uc & L)]]; [exact Hsame|].
+          apply (IH (t1, q1)); [|exact I3'']. left. cbn [fst snd]. split.
+          - unfold vec. rewrite !map_length. reflexivity.
+          - apply lexlt_pointwise; [intros c' _; apply A|exists c; split; assumption]. }
+        destruct Hnext as (f & t' & Hf). exists (S f), t'. cbn [pt_loop]. rewrite T, Sk, R, E. exact Hf.
+      + destruct Hsame as (f & t' & Hf). exists (S f), t'. cbn [pt_loop]. rewrite T, Sk, R. exact Hf.
+  Qed.
+End Termination.
+
+(* every commodity an edge can lead to *)
+Definition rec_comms (recs : records) : list cid := flat_map (fun wi => keys (snd wi)) recs.
+
+Lemma out_edges_in_rec_comms : forall recs date a e,
+  In e (out_edges recs date a) -> In (e_to e) (rec_comms recs).
+Proof.
+  intros recs date a e H. unfold out_edges in H. destruct (get a recs) as [inn|] eqn:G; [|destruct H].
+  apply in_omap in H. destruct H as ([o en] & Hin & Hf). unfold edge_of in Hf. cbn [fst snd] in Hf.
+  destruct (as_of (pe_rates en) date) as [[rd rate]|]; [|discriminate]. inversion Hf; subst. cbn [e_to].
+  unfold rec_comms. apply in_flat_map. exists (a, inn). split; [apply get_In; assumption|].
+  cbn [snd]. unfold keys. change o with (fst (o, en)). apply in_map. assumption.
+Qed.
+
+(* C09 termination: for every pop order there is a fuel with which the search finishes *)
+Theorem table_terminates : forall choose recs target date,
+  exists fuel t, price_table fuel choose recs target date = PTDone t.
+Proof.
+  intros choose recs target date. unfold price_table.
+  apply (pt_loop_terminates recs date (rec_comms recs) (out_edges_in_rec_comms recs date) choose
+                            ([], [(dist0, (target, 1))])).
+  intros d c r [E|[]]. inversion E; subst. cbn. lia.
+Qed.
